@@ -1,5 +1,5 @@
 /-
-  C02 — Assembler accepts exactly the well-formed programs.   (partial: decision points + acceptance ⇒ well-formed; the converse is checked)
+  C02 — Assembler accepts exactly the well-formed programs.   (proved both ways for structured programs: acceptance ⇒ well-formed, well-formed ⇒ accepted)
   Proved, for every state and statement, each decision of the two passes in the form the property states it:
   the location counter advances exactly while the block stays at or below xFE00 and the error names the condition
   (I/O page vs. wrap); labels and statements outside a block, `.end` without `.orig`, nested `.orig`, unclosed `.orig`
@@ -13,13 +13,17 @@
   and no two blocks of the object file overlap (`accepted_blocks_disjoint`, Lemmas/Disjoint.lean).
   Exact characterisation of the second pass (`second_pass_iff`, both directions; converse `second_pass_accepts`): a structured program whose statements all convert and whose non-empty
   blocks do not overlap is accepted by pass 2.
-  Not proved: the converse for pass 1 (no label conflict and no block-size error ⇒ pass 1 succeeds) as one statement;
+  Converse for pass 1 and for the whole assembler (`first_pass_accepts`, `assemble_accepts`, Lemmas/Pass1Accepts.lean): a
+  structured program whose blocks stay at or below xFE00 and whose label bindings, made in order, never bind a name to two
+  addresses passes pass 1; if moreover every statement converts and no two non-empty blocks overlap, `assemble` succeeds.
+  Not proved: that pass 1 accepts *only* such programs as one statement (the per-decision theorems above give each error);
   these are what the correspondence check decides with an independent well-formedness scan over programs with injected faults.
 -/
 import Lc3V.Lemmas.C01Core
 import Lc3V.Props.C01
 import Lc3V.Lemmas.Disjoint
 import Lc3V.Lemmas.Pass2Iff
+import Lc3V.Lemmas.Pass1Accepts
 set_option linter.unusedSimpArgs false
 namespace Lc3V.C02
 open Lc3V
@@ -197,8 +201,44 @@ theorem second_pass_iff (t : SymTab) (blks : List Blk) (tail : List Stmt)
   · rintro ⟨h1, h2⟩
     exact ⟨_, second_pass_accepts t blks tail hwf ht h1 h2⟩
 
+/-- **the first pass accepts** (converse direction for pass 1): a structured program — closed blocks, only unlabelled `.external`
+    declarations outside them, no label on an `.orig` — whose blocks stay at or below xFE00 (`BodyFits`) and whose label
+    bindings, made in program order (each label at the location counter of its statement, each `.external` at 0), never bind
+    a name to two different addresses (`labelFold` succeeds; `binding_ok_iff` says what one binding needs) -/
+theorem first_pass_accepts (blks : List Blk) (tail : List Stmt) (src : Option (List Char))
+    (hwf : ∀ b ∈ blks, b.WF ∧ (∀ s ∈ b.gap, isExternal s.nucleus = true ∧ s.labels = []) ∧ b.origS.labels = [] ∧ BodyFits b.a.toNat b.body)
+    (ht : ∀ s ∈ tail, isExternal s.nucleus = true ∧ s.labels = [])
+    (hl : ∃ m, labelFold [] (progBindings blks tail) = .ok m) :
+    ∃ t, pass1 (blks.flatMap Blk.stmts ++ tail) src = .ok t :=
+  pass1_accepts blks tail src hwf ht hl
+
+/-- a binding is accepted exactly when the name is unbound or already bound to the same address -/
+theorem binding_ok_iff (m : List (Key × SymData)) (x : Binding) :
+    (∃ m', bindStep m x = .ok m') ↔ ∀ d, lookupKey m (upperS x.1.name) = some d → d.addr = x.2.1 :=
+  bindStep_ok_iff m x
+
+/-- **the assembler accepts** every well-formed program: structure, block sizes and label bindings as in `first_pass_accepts`,
+    and — for the symbol table pass 1 then produces — every statement converts and no non-empty block overlaps another -/
+theorem assemble_accepts (blks : List Blk) (tail : List Stmt) (src : Option (List Char))
+    (hwf : ∀ b ∈ blks, b.WF ∧ (∀ s ∈ b.gap, isExternal s.nucleus = true ∧ s.labels = []) ∧ b.origS.labels = [] ∧ BodyFits b.a.toNat b.body)
+    (ht : ∀ s ∈ tail, isExternal s.nucleus = true ∧ s.labels = [])
+    (hl : ∃ m, labelFold [] (progBindings blks tail) = .ok m)
+    (h2 : ∀ t, pass1 (blks.flatMap Blk.stmts ++ tail) src = .ok t →
+      (∀ b ∈ blks, ∃ ws, bodyWords t b.a b.body = .ok ws) ∧ blks.Pairwise (BlkClear t)) :
+    ∃ obj, assemble (blks.flatMap Blk.stmts ++ tail) src = .ok obj := by
+  obtain ⟨t, ht1⟩ := first_pass_accepts blks tail src hwf ht hl
+  obtain ⟨hws, hpw⟩ := h2 t ht1
+  have hp2 := second_pass_accepts t blks tail (fun b hb => ⟨(hwf b hb).1, fun s hs => ((hwf b hb).2.1 s hs).1⟩)
+    (fun s hs => (ht s hs).1) hws hpw
+  unfold assemble
+  rw [ht1]
+  dsimp only
+  unfold pass2
+  rw [hp2]
+  exact ⟨_, rfl⟩
+
 def obligations : List Lean.Name :=
-  [``second_pass_iff, ``second_pass_accepts, ``accepted_structure, ``accepted_operands, ``accepted_blocks_disjoint, ``Lc3V.all_disjoint_of_neighbours, ``shift_zero, ``shift_ok, ``shift_io, ``shift_wrap, ``shift_keeps_flag, ``labels_outside_block, ``nested_orig,
+  [``assemble_accepts, ``first_pass_accepts, ``binding_ok_iff, ``second_pass_iff, ``second_pass_accepts, ``accepted_structure, ``accepted_operands, ``accepted_blocks_disjoint, ``Lc3V.all_disjoint_of_neighbours, ``shift_zero, ``shift_ok, ``shift_io, ``shift_wrap, ``shift_keeps_flag, ``labels_outside_block, ``nested_orig,
    ``end_without_orig, ``stmt_outside_block, ``unclosed_orig, ``external_operand, ``undefined_operand,
    ``C01.addLabel_spec, ``C01.addLabel_conflict, ``C01.label_operand]
 
